@@ -127,6 +127,11 @@ type Backend struct {
 	FailSystemOn           map[string]bool          // hosts (IP) whose system-table queries are answered with SERVER_ERROR (no control connection there)
 	ScriptBeforeUnprepared bool                     // EXECUTEs of unknown ids whose token has a script get the scripted outcome, not UNPREPARED
 	SlowStartupHosts       map[string]time.Duration // per host (IP): STARTUPs on that host are answered after this delay
+	// authentication (0: none): 1 = PasswordAuthenticator, 2 = DseAuthenticator (PLAIN / PLAIN-START / token), 3 = an unknown
+	// authenticator name; the token expected is "\x00" + AuthUser + "\x00" + AuthPass
+	AuthMode           int
+	AuthUser, AuthPass string
+	AcceptVersions     map[byte]bool // if non-nil, STARTUPs of other versions get "Invalid or unsupported protocol version"
 	SlowStartupVersion     byte                     // if non-zero only STARTUPs of this protocol version are slowed down per host
 	StartupDelay           time.Duration            // every STARTUP is answered after this delay (widens the window in which a session is being created)
 	PrepareErr             map[string][]Outcome     // per prepared-id (hex) outcomes of PREPARE attempts
@@ -339,6 +344,10 @@ func (b *Backend) SetStartupDelay(d time.Duration) {
 	b.StartupDelay = d
 	b.mu.Unlock()
 }
+
+// Lock / Unlock: for setting several configuration fields at once.
+func (b *Backend) Lock()   { b.mu.Lock() }
+func (b *Backend) Unlock() { b.mu.Unlock() }
 
 // SetSlowStartupHost makes every later STARTUP on host n wait before it is answered (0: no longer).
 func (b *Backend) SetSlowStartupHost(n int, d time.Duration) {
@@ -670,7 +679,36 @@ func (c *Conn) serve() {
 	defer c.close()
 	for {
 		hdr := make([]byte, 9)
-		if _, err := io.ReadFull(c.c, hdr); err != nil {
+		if _, err := io.ReadFull(c.c, hdr[:1]); err != nil {
+			return
+		}
+		if hdr[0]&0x7f == 2 {
+			// protocol v2: eight-byte header with a one-byte stream id; this backend never speaks it and says so, in v2 framing
+			if _, err := io.ReadFull(c.c, hdr[1:8]); err != nil {
+				return
+			}
+			n := int(hdr[4])<<24 | int(hdr[5])<<16 | int(hdr[6])<<8 | int(hdr[7])
+			if n < 0 || n > 64<<20 {
+				return
+			}
+			body := make([]byte, n)
+			if _, err := io.ReadFull(c.c, body); err != nil {
+				return
+			}
+			be := c.host.be
+			be.mu.Lock()
+			kind := "v2-frame"
+			if hdr[3] == byte(primitive.OpCodeStartup) {
+				kind = "startup"
+			}
+			c.logRec(Rec{Version: 2, Stream: int16(int8(hdr[2])), Opcode: hdr[3], Flags: hdr[1], Kind: kind, Raw: append(append([]byte{}, hdr[:8]...), body...)})
+			be.mu.Unlock()
+			var buf bytes.Buffer
+			_ = codecs.DefaultRawCodec.EncodeFrame(frame.NewFrame(primitive.ProtocolVersion2, int16(int8(hdr[2])), &message.ProtocolError{ErrorMessage: "Invalid or unsupported protocol version (2)"}), &buf)
+			c.writeRaw(buf.Bytes())
+			continue
+		}
+		if _, err := io.ReadFull(c.c, hdr[1:]); err != nil {
 			return
 		}
 		n := int(hdr[5])<<24 | int(hdr[6])<<16 | int(hdr[7])<<8 | int(hdr[8])
@@ -811,11 +849,51 @@ func (c *Conn) handle(hdr, body, raw []byte) bool {
 		if sdelay > 0 {
 			time.Sleep(sdelay)
 		}
+		be.mu.Lock()
+		accept, mode := be.AcceptVersions, be.AuthMode
+		be.mu.Unlock()
+		if accept != nil && !accept[byte(version)] {
+			c.sendMsg(stream, &message.ProtocolError{ErrorMessage: "Invalid or unsupported protocol version (" + version.String() + ")"})
+			c.setVer(0)
+			return true
+		}
+		if mode != 0 {
+			c.host.mu.Lock()
+			c.startupVer = byte(version)
+			c.host.mu.Unlock()
+			name := map[int]string{1: "org.apache.cassandra.auth.PasswordAuthenticator", 2: "com.datastax.bdp.cassandra.auth.DseAuthenticator", 3: "com.example.SomeAuthenticator"}[mode]
+			c.sendMsg(stream, &message.Authenticate{Authenticator: name})
+			return true
+		}
 		c.host.mu.Lock()
 		c.started = true
 		c.startupVer = byte(version)
 		c.host.mu.Unlock()
 		c.sendMsg(stream, &message.Ready{})
+		return true
+	case primitive.OpCodeAuthResponse:
+		frm, err := c.decode(hdr, body)
+		if err != nil {
+			return false
+		}
+		tok := frm.Body.Message.(*message.AuthResponse).Token
+		be.mu.Lock()
+		rec.Kind = "auth"
+		rec.Token = string(tok)
+		c.logRec(rec)
+		mode, want := be.AuthMode, "\x00"+be.AuthUser+"\x00"+be.AuthPass
+		be.mu.Unlock()
+		switch {
+		case mode == 2 && string(tok) == "PLAIN":
+			c.sendMsg(stream, &message.AuthChallenge{Token: []byte("PLAIN-START")})
+		case string(tok) == want:
+			c.host.mu.Lock()
+			c.started = true
+			c.host.mu.Unlock()
+			c.sendMsg(stream, &message.AuthSuccess{})
+		default:
+			c.sendMsg(stream, &message.AuthenticationError{ErrorMessage: "bad credentials"})
+		}
 		return true
 	case primitive.OpCodeRegister:
 		be.mu.Lock()
